@@ -2664,7 +2664,12 @@ class ParserFromRuntype implements BeffParser<any> {
     if (this.hideTypeNameInDescribe) {
       return [depsPart, renderTypeDescription(out)].filter((it) => it != null && it.length > 0).join("\n\n");
     }
-    const outPart = renderTypeAlias(`Codec${this.name}`, out);
+    // a user type may already be called Codec<name>: the root alias must not be declared twice
+    let rootName = `Codec${this.name}`;
+    while (Object.prototype.hasOwnProperty.call(ctx.definitions, rootName)) {
+      rootName += "_";
+    }
+    const outPart = renderTypeAlias(rootName, out);
     return [depsPart, outPart].filter((it) => it != null && it.length > 0).join("\n\n");
   }
   hash(): number {
